@@ -1,7 +1,103 @@
-(* C14 — property theorems only (proved in C14/Proofs*.v). *)
-From MV Require Import C14.Model gen.Params_C14.
+(* C14 — property theorems only (proved in C14/Proofs*.v).  All statements quantify over every
+   schedule (list of (thread, choice)) of the model C14/Model.v, any number of threads, any
+   scripts, each of the three back-ends.  [c_fix_exit] / [c_fix_add] = true is the code with
+   fixes/C14-exit-before-run.patch / fixes/C14-add-ctx-failure.patch applied. *)
+From MV Require Import C14.Model C14.ProofsBase C14.ProofsWake C14.ProofsExit C14.ProofsHandover gen.Params_C14.
 
 (* the exit status values the model uses are the ones event_loop.h defines *)
 Theorem c14_exit_status_constants : code_st_exit = ST_EXIT /\ code_st_wake = ST_WAKE.
 Proof. split; reflexivity. Qed.
 Print Assumptions c14_exit_status_constants.
+
+(* wake_not_lost: [w_req] = completed wake-up requests, [w_seen] = its value when the latest wake
+   callback started.  While a request is unserved (w_seen < w_req): before run() the eventfd
+   counter is positive; inside the loop a wake callback is about to start (the loop is between
+   the poll return that reported the signal and the callback) or the next poll attempt reports
+   the signal.  Coalescing allowed; holds for the unrepaired code too. *)
+Theorem wake_not_lost : forall C sched,
+  let s := exec sys (step C) init sched in
+  w_seen s <= w_req s /\
+  (w_seen s < w_req s ->
+   (prerun (thr s (c_loop C)) = true -> 0 < cnt s) /\
+   (in_body (thr s (c_loop C)) = true ->
+    served_soon (thr s (c_loop C)) = true \/ ready C s = true)).
+Proof. exact wake_not_lost_all. Qed.
+Print Assumptions wake_not_lost.
+
+(* ... so the loop never goes to sleep with an unserved request *)
+Theorem wake_poll_never_sleeps_with_request : forall C sched,
+  let s := exec sys (step C) init sched in
+  w_seen s < w_req s -> thr s (c_loop C) = APoll ->
+  exists s', step C s (c_loop C) 0 = Some (s', ev_poll true).
+Proof. exact wake_poll_never_sleeps. Qed.
+Print Assumptions wake_poll_never_sleeps_with_request.
+
+(* handover_once: see C14/ProofsHandover.v *)
+Theorem handover_once : forall C sched, c_fix_add C = true ->
+  let s := exec sys (step C) init sched in
+  (forall x, count_occ Nat.eq_dec (g_enq s) x <= 1) /\
+  (forall x, In x (g_enq s) -> places s x = 1) /\
+  (forall x, ~ In x (g_enq s) -> places s x = 0) /\
+  g_leaked s = [] /\
+  (returned s = true -> g_relclear s = reg s /\ queue s = g_late s).
+Proof. exact handover_once_all. Qed.
+Print Assumptions handover_once.
+
+Theorem handover_each_released_exactly_once_at_return : forall C sched, c_fix_add C = true ->
+  let s := exec sys (step C) init sched in
+  returned s = true ->
+  forall x, In x (g_enq s) ->
+  count_occ Nat.eq_dec (g_relfail s ++ g_relclear s ++ g_relexit s) x + count_occ Nat.eq_dec (g_late s) x = 1.
+Proof. exact handover_released_once. Qed.
+Print Assumptions handover_each_released_exactly_once_at_return.
+
+(* exit_returns.  FULL STATEMENT (DESIGN.md 6/C14): after an exit request from any thread at any
+   point, every fair continuation reaches the clear and exit callbacks and run() returns.
+   PROVED below: (1) the invariant "EXIT/WAKE pending => a writer of the signal is in flight, or
+   the loop thread is past a poll return in this iteration, or the signal is readable";
+   (2) a poll attempt with an exit pending and no writer in flight reports the signal (the loop
+   cannot sleep); (3) the exit test after any wake-up with an exit pending leaves the loop towards
+   the clear and exit callbacks; (4) the loop thread is never stuck: when it cannot step it waits
+   for the handle's mutex whose holder can step.  NOT MECHANISED: the variant bounding the number
+   of loop-thread steps from (3) to the return (at most 2*|ctx_list| + 2*|queue| + 5 steps, each
+   covered by (4)); hence the name. *)
+Theorem exit_returns_partial : forall C sched, c_fix_exit C = true ->
+  let s := exec sys (step C) init sched in
+  ((to_exit s = 0 \/ to_exit s = ST_EXIT \/ to_exit s = ST_WAKE) /\
+   (to_exit s <> 0 ->
+    (prerun (thr s (c_loop C)) = true -> writer_in_flight s \/ 0 < cnt s) /\
+    (in_body (thr s (c_loop C)) = true ->
+     writer_in_flight s \/ past_poll (thr s (c_loop C)) = true \/ ready C s = true))) /\
+  (to_exit s <> 0 -> ~ writer_in_flight s -> thr s (c_loop C) = APoll ->
+   exists s', step C s (c_loop C) 0 = Some (s', ev_poll true) /\ thr s' (c_loop C) = SPollRet) /\
+  (to_exit s <> 0 -> thr s (c_loop C) = SWakeEnd ->
+   exists s', step C s (c_loop C) 0 = Some (s', LPlain [(n_wake, 0%Z)]) /\
+              leaving (thr s' (c_loop C)) = true /\ to_exit s' = ST_EXIT) /\
+  (thr s (c_loop C) <> SStart -> thr s (c_loop C) <> Done -> step C s (c_loop C) 0 = None ->
+   exists u, u <> c_loop C /\ mtx s = Some u /\ step C s u 0 <> None).
+Proof.
+  intros C sched Hfix s. split; [|split; [|split]].
+  - exact (exit_pending_invariant C sched Hfix).
+  - exact (exit_poll_never_sleeps C sched Hfix).
+  - exact (exit_test_leaves C sched Hfix).
+  - exact (loop_never_stuck C sched).
+Qed.
+Print Assumptions exit_returns_partial.
+
+(* the code as first found violates exit_returns: witness schedule (replayed on the real loop by
+   the corpus cases corpus-exit-before-run-select, -poll and -epoll) *)
+Theorem exit_returns_refuted_on_unrepaired_code :
+  let C := cfg_exit_before_run false in
+  let s := exec sys (step C) init sched_exit_before_run in
+  to_exit s = ST_EXIT /\ thr s 0 = Done /\ thr s 1 = APoll /\ ready C s = false /\ returned s = false /\
+  (forall u k, u < 2 -> thr s u <> AWrite k).
+Proof. exact exit_returns_refuted. Qed.
+Print Assumptions exit_returns_refuted_on_unrepaired_code.
+
+(* the code as first found violates handover_once: witness (corpus-add-ctx-failure) *)
+Theorem handover_once_refuted_on_unrepaired_code :
+  let s := exec sys (step (cfg_add_failure false)) init sched_add_failure in
+  returned s = true /\ g_enq s = [0; 1] /\ reg s = [0] /\ g_leaked s = [1] /\ places s 1 = 0 /\
+  g_relclear s = [0] /\ queue s = [].
+Proof. exact handover_once_refuted. Qed.
+Print Assumptions handover_once_refuted_on_unrepaired_code.
